@@ -1,6 +1,7 @@
 package main
 
 import (
+	"runtime/pprof"
 	"flag"
 	"fmt"
 	"os"
@@ -12,6 +13,12 @@ import (
 )
 
 func main() {
+	if p := os.Getenv("GVC_CPUPROF"); p != "" {
+		if f, err := os.Create(p); err == nil {
+			pprof.StartCPUProfile(f)
+			defer pprof.StopCPUProfile()
+		}
+	}
 	if len(os.Args) < 2 {
 		fmt.Fprintln(os.Stderr, "usage: gvc vc|check ...")
 		os.Exit(2)
@@ -69,6 +76,7 @@ func vcCmd(args []string) {
 		res := eng.VerifyFunction(p, c)
 		if *verbose {
 			fmt.Printf("vcgen %v\n", time.Since(t0))
+			pprof.StopCPUProfile()
 		}
 		if res.Err != "" {
 			fmt.Printf("ERROR %s: %s\n", k, res.Err)
